@@ -86,6 +86,10 @@ def ref_entries(names) -> dict:
     return res
 
 
+FS_RESERVED = ('new', 'cur', 'tmp', 'maildirfolder', 'dovecot-uidlist', 'dovecot-uidlist.lock',
+               'dovecot-keywords', 'dovecot.sieve', 'subscriptions', 'subscriptions.lock')
+
+
 def md_valid_name(layout: str, n: str) -> bool:
     """what a maildir store can represent (independent statement of the guard)"""
     if n == 'INBOX':
@@ -97,7 +101,7 @@ def md_valid_name(layout: str, n: str) -> bool:
             return False
         if layout == '++' and '.' in p:
             return False
-        if layout == 'fs' and p in ('new', 'cur', 'tmp'):
+        if layout == 'fs' and p in FS_RESERVED:
             return False
     return True
 
@@ -442,8 +446,14 @@ async def run_program(backend: str, prog, hook):
     if backend == 'dict':
         env = await DictEnv().start()
     else:
-        base = tempfile.mkdtemp(prefix='pymapverif-c11-')
+        import os
+        from .C08 import TRACER
+        base = os.path.realpath(tempfile.mkdtemp(prefix='pymapverif-c11-'))
         env = await MaildirEnv('++' if backend == 'md++' else 'fs', base_dir=base).start()
+        # names like '..' must not be able to damage anything but this store,
+        # whatever the tree under test does with them
+        TRACER.install()
+        TRACER.sandbox = base
     try:
         r = Runner(env, hook)
         init = []
@@ -470,6 +480,7 @@ async def run_program(backend: str, prog, hook):
     finally:
         env.close()
         if base:
+            TRACER.sandbox = None
             shutil.rmtree(base, ignore_errors=True)
 
 
